@@ -8,7 +8,7 @@ from ..progprop import ProgramProperty, results, is_exc, init_step, Getter, have
 
 class C07(ProgramProperty):
     id = "C07"
-    theorems = []
+    theorems = ["C07_isUri", "C07_isCurie", "C07_parse", "C07_parse_strict", "C07_cos", "C07_eos", "C07_format", "C07_strict_aliases"]
     lean_modules = ["CuriesVerif.Properties.C07"]
     rule = ("one case = one strict converter built to be ambiguous (with probability 1/2 some URI prefix is itself a "
             "well-formed CURIE of the converter such as 'GO:' or some CURIE prefix is 'http'/'urn'), queried on 10 "
